@@ -140,6 +140,7 @@ def run(ctx):
     exc = {(r['function'], r['entity']): r for r in load_exceptions('A4')}
     maxline = ini_max_line(ctx)
     name_buf = common.macro_value(ctx.repo, 'SNOOPY_FILTER_NAME_MAX_SIZE')
+    NAME_BUF[0] = name_buf
     chain_default = prog.macros.get('SNOOPY_CONF_FILTER_CHAIN', '""').strip('"')
     ok = maxline <= name_buf and len(chain_default) < name_buf
     chk.ob('D1', 'ini-line-cap-covers-filter-name-buffer', ok, 'lib/inih/src/Makefile.am', '',
@@ -367,6 +368,7 @@ def store_base(o):
 
 
 BA = [None]
+NAME_BUF = [None]
 
 
 def semantic_row(exc, prog, f, o):
@@ -374,6 +376,20 @@ def semantic_row(exc, prog, f, o):
     rewriting an index expression or moving the statement into a file-local helper does not change what the
     exception is about"""
     for (fn, _), row in exc.items():
+        if row.get('entity_by') == 'filter-name-buffer' and o.kind == 'write':
+            owner = prog.func(fn)
+            if owner is not None and f in common.with_helpers(prog, owner):
+                # the destination is the local array of SNOOPY_FILTER_NAME_MAX_SIZE bytes
+                n_ = o.node
+                dst = None
+                if n_.k == 'CallExpr' and n_.get('callee') in ('strncpy', 'memcpy', 'memmove', '__builtin_strncpy', '__builtin_memcpy'):
+                    dst = decl_of(arg(n_, 0))
+                elif n_.k == 'BinaryOperator' and n_.get('op') == '=' and strip(n_.ch[0]).k == 'ArraySubscriptExpr':
+                    dst = decl_of(strip(n_.ch[0]).ch[0])
+                if dst is not None:
+                    size_ = next((x.get('size') for x in f.local_decls() if x['id'] == dst['id'] and 'arrayLen' in x), None)
+                    if size_ is not None and size_ == NAME_BUF[0]:
+                        return row
         if row.get('entity_by') == 'fread-chunks' and o.kind == 'write' and o.node.k == 'CallExpr' and \
                 o.node.get('callee') == 'fread':
             owner = prog.func(fn)
